@@ -254,18 +254,18 @@ Record fstate := mkFS {
   steps_done : nat
 }.
 
-(* "record weights": every live path that is not locked gets its row of P added *)
+(* "record weights": every live path that is not locked gets its row of P added.
+   traj_data[live] raises KeyError when the path has no record: [None]. *)
 Fixpoint credit (s : rstate) (P : list qrow) (i : nat) (slots : list nat) (fr : list (nat * qrow))
-  : list (nat * qrow) :=
+  : option (list (nat * qrow)) :=
   match slots with
-  | [] => fr
+  | [] => Some fr
   | pn :: r =>
-      let fr' := if is_locked s i then fr
-                 else match assoc_get pn fr with
-                      | Some v => assoc_set pn (qrow_add v (nth i P [])) fr
-                      | None => fr
-                      end in
-      credit s P (S i) r fr'
+      if is_locked s i then credit s P (S i) r fr
+      else match assoc_get pn fr with
+           | Some v => credit s P (S i) r (assoc_set pn (qrow_add v (nth i P [])) fr)
+           | None => None
+           end
   end.
 
 (* write_to_pathens for the archived path numbers: append the row, drop from traj_data *)
@@ -303,12 +303,15 @@ Definition treat_output (f : fstate) (rs : list ens_result) (acc : bool) (P : li
   | None => TreatAssert
   | Some s1 =>
       let fr1 := new_fracs rs (traj_num s) (size s) (fracs f) in
-      let fr2 := credit s1 P 0 (removelast (trajs s1)) fr1 in
+      match credit s1 P 0 (removelast (trajs s1)) fr1 with
+      | None => TreatAssert
+      | Some fr2 =>
       let '(fr3, dt) := if acc then archive (map r_pn_old rs) fr2 (data f) else (fr2, data f) in
       match sort_trajstate s1 with
       | SortOk s2 _ => TreatOk (mkFS s2 fr3 dt (S (steps_done f)))
       | SortValueError => TreatSortError
       | SortFuel => TreatSortHang
+      end
       end
   end.
 
